@@ -150,10 +150,7 @@ fn do_request(env: &WorkerEnv, scn: &Scn, req: &Req, thread: usize, idx: usize, 
                         Outcome::Ok(h.body)
                     } else if h.status == 400 {
                         let t = String::from_utf8_lossy(&h.body).into_owned();
-                        match t.strip_prefix("Error: ") {
-                            Some(m) => Outcome::Err(m.to_string()),
-                            None => Outcome::Panic(format!("400 body without 'Error: ' prefix: {}", shorten(&t, 100))),
-                        }
+                        Outcome::Err(t.strip_prefix("Error: ").unwrap_or(&t).to_string())
                     } else {
                         Outcome::Panic(format!("http status {}", h.status))
                     };
@@ -344,10 +341,7 @@ fn http_outcome(status: u16, body: &[u8]) -> Outcome {
         Outcome::Ok(body.to_vec())
     } else if status == 400 {
         let t = String::from_utf8_lossy(body).into_owned();
-        match t.strip_prefix("Error: ") {
-            Some(m) => Outcome::Err(m.to_string()),
-            None => Outcome::Panic(format!("400 body without 'Error: ' prefix: {}", shorten(&t, 100))),
-        }
+        Outcome::Err(t.strip_prefix("Error: ").unwrap_or(&t).to_string())
     } else {
         Outcome::Panic(format!("http status {status}"))
     }
@@ -796,7 +790,9 @@ impl Engine for C07 {
             };
             let agrees = match (&r.outcome, &g_for_fe) {
                 (Outcome::Ok(a), Outcome::Ok(b)) => a == b,
-                (Outcome::Err(a), Outcome::Err(b)) => r.class_only || a == b,
+                // the statement asks for "an error", not for one message format across
+                // front-ends: texts are compared only between the library functions
+                (Outcome::Err(a), Outcome::Err(b)) => r.class_only || !matches!(fe, "str" | "stream") || a == b,
                 (a, b) => a == b,
             };
             if !agrees {
@@ -824,9 +820,10 @@ impl Engine for C07 {
             // --- protocol mapping of the front-end
             if fe == "router" || fe == "server-proc" {
                 if let Some((status, ct)) = &r.http {
+                    // (content types are not part of the statement; they go into the detail only)
                     let ok = match &r.outcome {
-                        Outcome::Ok(_) => *status == 200 && ct.starts_with("image/svg+xml"),
-                        Outcome::Err(_) => *status == 400 && ct.starts_with("text/plain"),
+                        Outcome::Ok(_) => *status == 200,
+                        Outcome::Err(_) => *status == 400,
                         _ => false,
                     };
                     if !ok {
